@@ -261,6 +261,11 @@ class Rig:
         iam = IAmRequest(iAmDeviceIdentifier=("device", device), maxAPDULengthAccepted=max_apdu, segmentationSupported=segsup, vendorID=999)
         iam.pduSource = source or self.s.addr
         self.c.smap.deviceInfoCache.iam_device_info(iam)
+        if self.cfg.get("known_maxsegs"):
+            # ... and how many segments the peer accepts (read from its device object, say): DeviceInfo.maxSegmentsAccepted
+            di = self.c.smap.deviceInfoCache.get_device_info(iam.pduSource)
+            di.maxSegmentsAccepted = self.cfg["known_maxsegs"]
+            self.c.smap.deviceInfoCache.update_device_info(di)
         if self.cfg.get("s_npdu"):
             # the application also knows the largest NPDU the path to that peer carries (DeviceInfo.maxNpduLength)
             di = self.c.smap.deviceInfoCache.get_device_info(iam.pduSource)
